@@ -73,7 +73,9 @@ fn build_app(apps: &[Value], idx: usize, t: &router::Table, cors: Option<CORS>, 
     let app = &apps[idx - 1];
     let mut o = match cors { Some(c) => Ohkami::with((c,), ()), None => Ohkami::new(()) };
     for it in arr(&app["items"]) {
-        let lit = util::leak(t.route_literal(&it["segs"], pbase, "c"));
+        // param names differ from item to item, as in real applications (two registrations of one path may name its params differently)
+        let tag = if s(&it["t"]) == "route" { format!("h{}", i(&it["h"])) } else { format!("m{}", i(&it["app"])) };
+        let lit = util::leak(t.route_literal(&it["segs"], pbase, &tag));
         if s(&it["t"]) == "route" {
             v::apply_handlers(&mut o, with_methods(v::handler_set(lit), arr(&it["methods"]), i(&it["h"])));
         } else {
